@@ -163,6 +163,7 @@ func init() {
 		"(*strings.Builder).copyCheck": func(fr *frame, a []value) value { return nil },
 
 		"errors.Is":        extErrorsIs,
+		"encoding/json.Unmarshal": extJSONUnmarshal,
 		"sort.Slice":       extSortSlice,
 		"sort.SliceStable": extSortSlice,
 		"reflect.Swapper":  extSwapper,
@@ -429,6 +430,14 @@ func callRtypeMethod(i *interpreter, m *rtypeMethod, args []value) value {
 			panic(targetPanic{iface{i.runtimeErrorString, "reflect: non-interface type passed to Type.Implements"}})
 		}
 		return types.Implements(t, it)
+	case "ConvertibleTo":
+		u := args[1].(iface).v.(rtype).t
+		return types.ConvertibleTo(t, u)
+	case "AssignableTo":
+		u := args[1].(iface).v.(rtype).t
+		return types.AssignableTo(t, u)
+	case "Comparable":
+		return types.Comparable(t)
 	case "String":
 		return types.TypeString(t, func(p *types.Package) string { return p.Name() })
 	case "Name":
@@ -695,6 +704,17 @@ func callND(fr *frame, name string, args []value) value {
 		return nil
 	case "Replaying":
 		return false
+	case "ProtoEqualNoCtx":
+		x, y := args[0].(iface), args[1].(iface)
+		if x.t == nil || y.t == nil {
+			return x.t == nil && y.t == nil
+		}
+		if !types.Identical(x.t, y.t) {
+			return false
+		}
+		deepEqSkipCtx = true
+		defer func() { deepEqSkipCtx = false }()
+		return mkVal(types.Bool, deepEqTerm(x.t, x.v, y.v, 0))
 	case "Thorough":
 		return tierName == "thorough"
 	case "BudgetSteps":
@@ -1272,7 +1292,12 @@ func extProtoEqual(fr *frame, a []value) value {
 	return mkVal(types.Bool, deepEqTerm(x.t, x.v, y.v, 0))
 }
 
+var deepEqSkipCtx bool
+
 func isProtoInternalField(f *types.Var) bool {
+	if deepEqSkipCtx && (f.Name() == "SourceContext" || f.Name() == "SourceContexts") {
+		return true
+	}
 	switch f.Name() {
 	case "state", "sizeCache", "unknownFields", "XXX_NoUnkeyedLiteral", "XXX_unrecognized", "XXX_sizecache":
 		return true
@@ -1416,4 +1441,120 @@ func safeLookupMethod(i *interpreter, t types.Type, name string) *ssa.Function {
 		return nil
 	}
 	return i.prog.MethodValue(sel)
+}
+
+// json.Unmarshal(data, &string): decoding of one JSON string literal over (possibly
+// symbolic) ASCII bytes, the only use the code under test makes of it (fromQString).
+// Other targets are not modelled.
+func extJSONUnmarshal(fr *frame, a []value) value {
+	data := a[0].([]value)
+	target := a[1].(iface)
+	ptr, ok := target.t.Underlying().(*types.Pointer)
+	if !ok {
+		panic(pathEnd{peUnsupported, "json.Unmarshal: target is not a pointer"})
+	}
+	if b, ok := ptr.Elem().Underlying().(*types.Basic); !ok || b.Kind() != types.String {
+		panic(pathEnd{peUnsupported, "json.Unmarshal into " + ptr.Elem().String()})
+	}
+	mkErr := func(msg string) value {
+		pkg := fr.i.prog.ImportedPackage("errors")
+		cell := value(structure{"json: " + msg})
+		return iface{types.NewPointer(pkg.Type("errorString").Type()), &cell}
+	}
+	is := func(b value, c byte) bool { return ex.Branch(Eq(byteTerm(b), BV(8, uint64(c)))) }
+	isWS := func(b value) bool {
+		t := byteTerm(b)
+		return ex.Branch(Or(Eq(t, BV(8, ' ')), Eq(t, BV(8, '\n')), Eq(t, BV(8, '\t')), Eq(t, BV(8, '\r'))))
+	}
+	i := 0
+	for i < len(data) && isWS(data[i]) {
+		i++
+	}
+	if i >= len(data) || !is(data[i], '"') {
+		return mkErr("not a string literal")
+	}
+	i++
+	var out []value
+	closed := false
+	for i < len(data) {
+		b := data[i]
+		t := byteTerm(b)
+		if ex.Branch(Eq(t, BV(8, '"'))) {
+			closed = true
+			i++
+			break
+		}
+		if ex.Branch(Bin(OUlt, t, BV(8, 0x20))) {
+			return mkErr("invalid character in string literal")
+		}
+		if ex.Branch(Not(Bin(OUlt, t, BV(8, 0x80)))) {
+			panic(pathEnd{peUnsupported, "json.Unmarshal: non-ASCII byte in string literal"})
+		}
+		if !ex.Branch(Eq(t, BV(8, '\\'))) {
+			out = append(out, b)
+			i++
+			continue
+		}
+		i++
+		if i >= len(data) {
+			return mkErr("unexpected end of JSON input")
+		}
+		e := cint(data[i]).(uint8)
+		i++
+		switch e {
+		case '"', '\\', '/', '\'':
+			out = append(out, e)
+		case 'b':
+			out = append(out, uint8('\b'))
+		case 'f':
+			out = append(out, uint8('\f'))
+		case 'n':
+			out = append(out, uint8('\n'))
+		case 'r':
+			out = append(out, uint8('\r'))
+		case 't':
+			out = append(out, uint8('\t'))
+		case 'u':
+			if i+4 > len(data) {
+				return mkErr("invalid escape")
+			}
+			var r rune
+			for k := 0; k < 4; k++ {
+				c := cint(data[i+k]).(uint8)
+				var d byte
+				switch {
+				case c >= '0' && c <= '9':
+					d = c - '0'
+				case c >= 'a' && c <= 'f':
+					d = c - 'a' + 10
+				case c >= 'A' && c <= 'F':
+					d = c - 'A' + 10
+				default:
+					return mkErr("invalid escape")
+				}
+				r = r*16 + rune(d)
+			}
+			i += 4
+			if r >= 0xD800 && r < 0xE000 {
+				panic(pathEnd{peUnsupported, "json.Unmarshal: surrogate escapes"})
+			}
+			for _, c := range []byte(string(r)) {
+				out = append(out, c)
+			}
+		default:
+			return mkErr("invalid character in string escape code")
+		}
+	}
+	if !closed {
+		return mkErr("unexpected end of JSON input")
+	}
+	for i < len(data) {
+		if !isWS(data[i]) {
+			return mkErr("invalid character after top-level value")
+		}
+		i++
+	}
+	p := target.v.(*value)
+	*p = mkStr(out)
+	return iface{}
 }
